@@ -190,6 +190,8 @@ def c20(tier):
     # an operation given containers of the wrong length refuses them; it does not subscript past their end (assert is not a check)
     kb.kb10(P, C)
     st.st1(P, C)
+    # construction by stacking fills every per-dimension attribute of every dimension (the arrays come uninitialised)
+    st.fc1(P, C)
     return C.finish()
 
 
